@@ -22,22 +22,32 @@ SPEC = dict(
              'Lean proves for ALL arguments and states that each regenerated method equals the hand model operation (c06_src_store, c06_src_load: same decision to raise, '
              'same state afterwards, same value); hence c06_src_bits_exact, c06_src_store_load, c06_src_preload_eq_load state the property theorems of the regenerated methods. '
              'A source change of these methods breaks a proof obligation (then the failing-input search replays the differing operation through the oracle). '
-             'Still hand model + differential testing: store_snake_bytes / load_snake_bytes / store_snake_string, the str and TvmBitarray argument forms of store_bit / store_bits, '
-             'Address(str) parsing, the HashMap parse behind load_dict (C09). Seeded scripts run on the library and on the compiled model, and '
+             'THE SNAKE METHODS TOO: Builder.store_snake_bytes / store_snake_string and Slice.load_snake_bytes / load_snake_string are re-translated on every run '
+             '(Generated/SnakeOps.lean: the iterative code as it is - head bytes, then a for loop over reversed(range(0, len(rest), 127)) with the loop-carried tail cell; '
+             'the reader a `while True` over a cursor that starts as an alias of self, with a declared iteration bound) and proved equal to the RECURSIVE hand model for every byte '
+             'string, every builder state and every slice state with ref_offset <= len(refs) (c06_src_snake); so c06_src_snake_store_iff (returns iff chain depth <= 1024), '
+             'c06_src_snake_depth_exact (root depth exactly the closed form, end_cell iff <= 1023, regenerated load gives the bytes back) and c06_src_snake_roundtrip '
+             '(depth <= 1023: store, end_cell, begin_parse, load_snake_bytes = the bytes; beyond: no cell comes out) are theorems about the regenerated code; '
+             'c06_src_preload_ref_offset: preload_ref(offset) for every offset. '
+             'Still hand model + differential testing: the str / TvmBitarray / iterable argument forms of store_bit / store_bits, '
+             'store_address(str) (Address(str) parsing), the HashMap parse behind load_dict (C09). Seeded scripts run on the library and on the compiled model, and '
              'each script is also checked on the library alone against an independent Python TL-B encoder, peek/load round trip and leftovers.',
         level_note='Proved for all inputs: the statements above, about Model/Builder.lean, and the equality of the regenerated methods with that model. Trusted for the '
                    'regenerated part: the translator pymeth.py (+ pyobj/pybytes/pyarith expression rules), the declared interface in harness/translate/bsops.py (attribute types, '
                    'property aliases, constructors of Address / ExternalAddress / Slice, a str travels as its UTF-8 bytes, HashMap.parse is a function of the referenced cell, '
                    'the cell constructor is a parameter assumed to build reference-free cells) and lean/TonVerif/PyBits.lean (meaning of int2ba, ba2int, bitarray indexing / '
-                   'slice deletion / append); all validated on every change by Lean evaluation of the regenerated methods = the library on ~400 op scripts. Only sampled: that the '
-                   'remaining methods (snake, argument forms, Address(str)) behave as the model (correspondence on generated scripts; str.encode/decode are '
+                   'slice deletion / append; for the snake methods also Py.forL / whileS / bindA / rangeStep and the declared reading of <cell>.begin_parse() as `view`, '
+                   'of end_cell\'s Cell(..) as the parameter `mk`, of a None passed where a cell is declared as a raise, and the iteration bound `fuel`); '
+                   'all validated on every change by Lean evaluation of the regenerated methods = the library on ~650 op scripts. Only sampled: that the '
+                   'remaining forms (argument forms of store_bit / store_bits, Address(str)) behave as the model (correspondence on generated scripts; str.encode/decode are '
                    'assumed as modelled). Not modelled: load_dict parses the referenced HashMap (C09), str<->UTF-8, Python recursion limit for very '
                    'long snake chains. Trusted: Spec/TlbPrim.lean + Spec/TlbVal.lean say what TL-B says; Lean kernel; harness/gen/scripts.py.',
         technique='Lean 4 proof (hand model, OpSpec calculus + closed forms of the slice reads) + differential correspondence with the library '
                   '+ source-regenerated methods (stateful-method translator, equality with the hand model proved for all inputs) and arithmetic lemmas'),
     translators=[('builder.py var-int byte lengths->Generated/VarLen.lean', arith.regenerator('VarLen')),
                  ('builder.py/tvm_bitarray.py store_* methods->Generated/BuilderOps.lean', bsops.regenerator('BuilderOps')),
-                 ('slice.py/tvm_bitarray.py load_*/preload_* methods->Generated/SliceOps.lean', bsops.regenerator('SliceOps'))],
+                 ('slice.py/tvm_bitarray.py load_*/preload_* methods->Generated/SliceOps.lean', bsops.regenerator('SliceOps')),
+                 ('builder.py/slice.py snake methods->Generated/SnakeOps.lean', bsops.regenerator('SnakeOps'))],
     design_ref='DESIGN.md §6 C06',
     rule='seeded sequences of typed values that fit a cell (ints of widths 1..257 at 0/1/max/top-bit/min/-1, var-ints of every byte-length '
          'class incl. top-bit-set values, coins, bits, bytes, refs, maybe-refs, addr_none/extern(len 0..511)/std(+anycast)), snake byte strings '
@@ -179,6 +189,90 @@ def snake(ctx, n, prefill):
         lops = ([f'sk:{prefill}'] if prefill else []) + ['lsn']
         res, rb, rr = S.exec_slice(b.end_cell(), lops)
         ctx.expect_model(sline(dag, len(dag) - 1, lops), f'ok {res} {rb} {rr}', f'snake load len {n} prefill {prefill}')
+
+
+def snake_refs(ctx, n, prefill, nrefs):
+    """store_snake_bytes into a builder that already holds `nrefs` references, against the closed form: the first (1023 - prefill) // 8
+    bytes go into this cell; anything beyond hangs under ONE more reference as 127-byte cells (refused when no slot is free, the head
+    bytes stay written); the chain is read back by walking the cells."""
+    from pytoniq_core.boc.builder import Builder
+    data = bytes((i * 11 + n) % 253 for i in range(n))
+    leaf = G.lib_build(LEAF_DAG)[0]
+    inp = {'len': n, 'prefill': prefill, 'refs': nrefs}
+    ctx.case(('snake-refs', n, prefill, nrefs), sample=inp)
+    ctx.count('snake-refs')
+    b = Builder()
+    if prefill:
+        b.store_uint(0, prefill)
+    for _ in range(nrefs):
+        b.store_ref(leaf)
+    try:
+        b.store_snake_bytes(data)
+        ok = True
+    except Exception:
+        ok = False
+    room = (1023 - prefill) // 8
+    want_ok = n <= room or nrefs < 4
+    if ok != want_ok:
+        ctx.fail('snake-store', f'store_snake_bytes of {n} bytes into a builder with {prefill} bits / {nrefs} refs ' + ('was refused' if want_ok else 'was accepted'),
+                 inp, ok, want_ok)
+        return
+    try:
+        head = b.bits.to01()[prefill:]
+        want_head = G.bytes_to_bits(data[:room])
+        if head != want_head:
+            ctx.fail('snake-store', 'the bytes written into the first cell are not the first (1023 - prefill) // 8 bytes', inp, head[:80], want_head[:80])
+            return
+        if not ok:
+            if len(b.refs) != nrefs:
+                ctx.fail('snake-store', 'a refused store_snake_bytes changed the references', inp, len(b.refs), nrefs)
+            return
+        want_refs = nrefs + (1 if n > room else 0)
+        if len(b.refs) != want_refs:
+            ctx.fail('snake-store', 'store_snake_bytes did not add exactly one reference for the tail', inp, len(b.refs), want_refs)
+            return
+        got, c, depth = b'', (b.refs[-1] if n > room else None), 0
+        while c is not None:
+            got += c.bits.tobytes()
+            if len(c.bits) % 8 or len(c.bits) > 1016 or len(c.refs) > 1:
+                ctx.fail('snake-store', 'a tail cell of the snake is not a byte string of at most 127 bytes with at most one reference', inp,
+                         [len(c.bits), len(c.refs)], '<= 1016 bits, <= 1 ref')
+                return
+            c = c.refs[0] if c.refs else None
+        if got != data[room:]:
+            ctx.fail('snake-store', 'the tail cells of the snake do not hold the remaining bytes in order', inp, got.hex()[:80], data[room:].hex()[:80])
+    except Exception as e:
+        ctx.fail('snake-store', f'the builder after store_snake_bytes cannot be inspected: {type(e).__name__}', inp, repr(e)[:100], 'cells')
+
+
+def src_search_snake(ctx):
+    """Search mode only: where the regenerated snake methods (Generated/SnakeOps.lean) differ from the hand model they are proved equal to
+    (evaluated by Lean on the validation scripts), the store / load of that length at that fill level goes through the snake oracles
+    (closed-form depth, raise point, round trip, cells of the chain).  True = a concrete failing input was found."""
+    n0 = len(ctx.failures)
+    pts, strs = [], []
+    for (fb, fr, toks), idx in bsops.diff_scripts(ctx, 'B', bsops.snake_builder_scripts(), snake=True):
+        for i in idx:
+            p = toks[i].split(':')
+            n = 0 if p[1] == '-' else len(p[1]) // 2
+            if i == 0 and p[0] == 'sn' and (n, fb, fr) not in pts:
+                pts.append((n, fb, fr))
+            if p[0] == 'sns' and (n, p[2] == '1', fb) not in strs:
+                strs.append((n, p[2] == '1', fb))
+    if bsops.diff_scripts(ctx, 'S', bsops.snake_slice_scripts(), snake=True):
+        pts += [(n, fb, 0) for n in (0, 1, 127, 128, 254, 300, 1000) for fb in (0, 8) if (n, fb, 0) not in pts]
+    for n, fb, fr in pts[:60]:
+        if fr == 0:
+            snake(ctx, n, fb)
+        snake_refs(ctx, n, fb, fr)
+        if len(ctx.failures) > n0:
+            return True
+    for n, pre, fb in strs[:30]:
+        if fb % 8 == 0:
+            snake_string(ctx, n, pre, fb)
+        if len(ctx.failures) > n0:
+            return True
+    return len(ctx.failures) > n0
 
 
 def snake_string(ctx, n, pre, prefill):
@@ -346,7 +440,7 @@ def src_search_methods(ctx):
 def run(ctx):
     rng = ctx.rng
     cells = G.lib_build(LEAF_DAG)
-    if ctx.search and (src_search(ctx, cells) or src_search_methods(ctx)):
+    if ctx.search and (src_search(ctx, cells) or src_search_methods(ctx) or src_search_snake(ctx)):
         return
     # context with a real dictionary cell (HashMap(8), 3 entries) for store_dict / load_dict / preload_dict
     ddag = LEAF_DAG + S.shift_dag(S.dict_dag(), len(LEAF_DAG))
@@ -407,6 +501,9 @@ def run(ctx):
     snake(ctx, 127 + 127 * 1023 + 1, 3)
     snake(ctx, 126 + 127 * 1023, 11)
     snake(ctx, 126 + 127 * 1023 + 1, 11)
+    for n in (0, 1, 126, 127, 128, 255, 300):
+        for prefill, nrefs in ((0, 1), (0, 3), (0, 4), (8, 4), (1016, 3), (1016, 4), (1023, 4), (3, 2)):
+            snake_refs(ctx, n, prefill, nrefs)
     api_extras(ctx)
 
 
@@ -418,5 +515,7 @@ def replay(ctx, payload):
             S._BIT_FORM[0] = form
             S._BITS_FORM[0] = form
             check_roundtrip(ctx, dag, G.lib_build(dag), inp['ops'], inp.get('tag', 'replay'))
+    elif 'len' in inp and 'prefill' in inp and 'refs' in inp:
+        snake_refs(ctx, int(inp['len']), int(inp['prefill']), int(inp['refs']))
     elif 'len' in inp and 'prefill' in inp:
         snake(ctx, int(inp['len']), int(inp['prefill']))
